@@ -329,20 +329,48 @@ func (s *genState) spellFile(name string) string {
 	return name
 }
 
-func (s *genState) pairs() []string {
+func (s *genState) pairs(file string) []string {
 	if !s.o.Pairs || rapid.IntRange(0, 2).Draw(s.t, "pairs?") != 0 {
 		return nil
 	}
+	// keys are taken from the endings of the file's own entries so that rewriting really happens
+	var endings []string
+	for _, dir := range []string{"include/", "exclude/"} {
+		for _, l := range s.g.Prog.Files[dir+file+".ra"] {
+			if l.K == KEntry && len(l.T) > 0 && !strings.ContainsAny(l.T[len(l.T)-1:], " \t") {
+				endings = append(endings, l.T[len(l.T)-1:])
+				if len(l.T) > 1 && !strings.ContainsAny(l.T[len(l.T)-2:], " \t") {
+					endings = append(endings, l.T[len(l.T)-2:])
+				}
+			}
+		}
+	}
+	endings = append(endings, "a", "o", "e", "@", "~")
 	n := rapid.IntRange(1, 3).Draw(s.t, "npairs")
 	var ps []string
 	used := map[string]bool{}
 	for i := 0; i < n; i++ {
-		old := rapid.SampledFrom([]string{"a", "b", "c", "x", "o", "ab", "oo", "@", "~", "e"}).Draw(s.t, "old")
+		old := rapid.SampledFrom(endings).Draw(s.t, "old")
 		if used[old] {
 			continue
 		}
 		used[old] = true
-		nw := rapid.SampledFrom([]string{`""`, "a", "b", "x", "o", "z", "yy", "e"}).Draw(s.t, "new")
+		var nw string
+		switch k := rapid.IntRange(0, 5).Draw(s.t, "newk"); {
+		case k == 0:
+			nw = `""`
+		case k <= 2 && len(ps) > 0:
+			// replacement that ends in another pair's key: the pairs interact
+			nw = "w" + ps[2*rapid.IntRange(0, len(ps)/2-1).Draw(s.t, "other")]
+			s.label("interacting-pairs")
+		case k == 3:
+			nw = rapid.SampledFrom(endings).Draw(s.t, "newend")
+		default:
+			nw = rapid.SampledFrom([]string{"z", "yy", "x1", "q"}).Draw(s.t, "new")
+		}
+		if strings.ContainsAny(nw, " \t") || nw == "" {
+			nw = "z"
+		}
 		ps = append(ps, old, nw)
 	}
 	s.label("suffix-pairs")
@@ -426,7 +454,7 @@ func (s *genState) body(depth int, inCmd bool) []Line {
 			loneAltPending = sinceFlush == 1 && nw > 1
 		case k < 95 && s.o.Includes && len(s.files) > 0:
 			f := rapid.SampledFrom(s.files).Draw(t, "incfile")
-			add(Line{K: KInclude, File: s.spellFile(f), Pairs: s.pairs()})
+			add(Line{K: KInclude, File: s.spellFile(f), Pairs: s.pairs(f)})
 			s.label("include")
 			sinceFlush += 2 // unknown number of lines: treated as "not lone"
 			loneAltPending = false
@@ -441,7 +469,7 @@ func (s *genState) body(depth int, inCmd bool) []Line {
 			if len(ex) == 0 {
 				continue
 			}
-			add(Line{K: KExcept, File: s.spellFile(f), Excl: ex, Pairs: s.pairs()})
+			add(Line{K: KExcept, File: s.spellFile(f), Excl: ex, Pairs: s.pairs(f)})
 			s.label("include-except")
 			sinceFlush += 2
 			loneAltPending = false
